@@ -70,7 +70,7 @@ var Owns = map[string][]string{
 	"C01": {"read", "panic", "deadlock"},
 	"C02": {"search"},
 	"C03": {"unique"},
-	"C04": {"reopen"},
+	"C04": {"reopen", "layout"},
 	"C05": {"crash"},
 	"C06": {"reject", "iofault"},
 	"C07": {"batch"},
@@ -194,6 +194,8 @@ func Run(p Params) *Result {
 		r = RunGuard(p)
 	case "mangle":
 		r = RunMangle(p)
+	case "golden":
+		r = RunGolden(p)
 	default:
 		return &Result{Params: p, Incon: "unknown scenario " + p.Scenario}
 	}
